@@ -77,7 +77,7 @@ func c02Oracle(sc *Scenario, rec *Rec, s *mc.Sched) []mc.Violation {
 		if res == "nil" && rpc.serverStreams() {
 			continue // a message
 		}
-		if sc.Cancel == "" && !success && res != "nil" {
+		if sc.Cancel == "" && !success && res != "nil" && ref.Status != "nil" {
 			// undisturbed: the handler's status, exactly
 			if statusCodeOf(res) != ref.Code && !(res == "EOF" && k > 0) {
 				add("wrong-status", fmt.Sprintf("handler returned %s, receive #%d reported %s", ref.Code, k, normFinal(res)))
